@@ -73,6 +73,18 @@ def case(g, tier, ci):
                     "kw": r.choice([[["m1", [0] * N], ["m2", [0] * (N + r.choice([-1, 1, 3]))]],
                                     [["m1", [0] * N], ["m2", [0] * N], ["m3", [0] * (N + r.choice([-1, 1]))]],
                                     [["m3", [1] * (N - 1)]]]), "_errclass": True})
+    if ci % 10 == 3:
+        # a channel whose first segment is an ordinary ramp NAMED like a wait ('waituntil_readout'), followed by a real waituntil:
+        # points and duration are those of the forged waveform
+        a, w = 3, 3 + r.randint(2, 5)
+        if N > w + 2:
+            ops += [{"op": "bp.new", "id": "bw"},
+                    {"op": "bp.insert", "id": "bw", "pos": -1, "fn": "ramp", "args": [enc(r.choice([40, 0.5]) / SR), enc(0.25)], "dur": enc(a / SR),
+                     "name": enc(r.choice(["waituntil_readout", "waituntilgate"]))},
+                    {"op": "bp.insert", "id": "bw", "pos": -1, "fn": "waituntil", "args": [enc(w / SR)], "dur": None, "name": None},
+                    {"op": "bp.insert", "id": "bw", "pos": -1, "fn": "ramp", "args": [enc(0), enc(1)], "dur": enc((N - w) / SR), "name": None},
+                    {"op": "bp.setSR", "id": "bw", "SR": enc(SR)}, {"op": "bp.points", "id": "bw"}, {"op": "bp.duration", "id": "bw"},
+                    {"op": "el.addBP", "id": "e", "ch": chans[0], "bp": "bw"}]
     if ci % 6 == 2:
         # a refused addBluePrint (an empty blueprint) on an occupied channel changes nothing
         ops += [{"op": "bp.new", "id": "empty"}, {"op": "el.addBP", "id": "e", "ch": r.choice(chans), "bp": "empty"}]
